@@ -364,9 +364,15 @@ ns_inject_now(const coap_address_t *src, const coap_address_t *dst, const uint8_
 }
 
 /* ---- wrapped libcoap socket functions (datagram) ---- */
+int ns_bind_fail_next;
 int __wrap_coap_socket_bind_udp(coap_socket_t *sock, const coap_address_t *listen_addr, coap_address_t *bound_addr);
 int
 __wrap_coap_socket_bind_udp(coap_socket_t *sock, const coap_address_t *listen_addr, coap_address_t *bound_addr) {
+  if (ns_bind_fail_next > 0) {
+    ns_bind_fail_next--;
+    errno = EADDRINUSE;
+    return 0;
+  }
   struct ns_sock *k = sk_alloc(SK_UDP_EP, sock);
   coap_endpoint_t *ep = container_of(sock, coap_endpoint_t, sock);
   k->ctx = ep->context;
@@ -1133,6 +1139,7 @@ ns_init(void) {
   g_next_epfd = NS_EPFD_BASE;
 #endif
   ns_dups_done = 0;
+  ns_bind_fail_next = 0;
   ns_stream_filter = NULL;
   ns_mutate = NULL;
   ns_stream_auto = 1;
